@@ -1,3 +1,4 @@
 import SC.Audit
 import SC.Properties.C20
+import SC.Properties.Src.C20
 #audit C20
